@@ -1350,3 +1350,55 @@ func RScratch(c *core.Ctx) {
 		c.Anchor("scratch buffers filled and read inside a loop")
 	}
 }
+
+// ---------------------------------------------------------------------------
+// R-PROTOCOPY: class prototypes are handed out as deep copies.
+// The predefined classes (\w, \s, \d, their ECMAScript / RE2 forms) are built
+// once and served by closures.  `local := c; return &local` copies the struct
+// but shares c.ranges / c.categories with the prototype and with every other
+// user: a pattern being compiled merges and canonicalizes IN PLACE (writes
+// c.ranges[j]) while compiled patterns on other goroutines read the same
+// backing array during a match — a data race on process-wide state.
+// ---------------------------------------------------------------------------
+
+func RProtoCopy(c *core.Ctx) {
+	c.Rule("R-PROTOCOPY", "every closure in package syntax that serves a predefined CharSet (a func() *CharSet literal returning the address of a value derived from a captured CharSet) obtains that value through CharSet.Copy (deep copy), not by plain assignment of the captured struct, whose slices stay shared with the prototype", 2)
+	p := c.P
+	syn := p.Pkg("syntax")
+	info := syn.TypesInfo
+	copyFn := p.LookupFunc("syntax", "CharSet.Copy")
+	if copyFn == nil {
+		c.Anchor("syntax.CharSet.Copy")
+		return
+	}
+	n := 0
+	for _, fd := range p.FuncDecls(syn) {
+		if fd.Body == nil || p.IsTestFile(fd.Pos()) {
+			continue
+		}
+		name := core.DeclName(syn, fd)
+		ast.Inspect(fd.Body, func(x ast.Node) bool {
+			fl, ok := x.(*ast.FuncLit)
+			if !ok || fl.Type.Results == nil || len(fl.Type.Results.List) != 1 || (fl.Type.Params != nil && len(fl.Type.Params.List) > 0) {
+				return true
+			}
+			rt := info.TypeOf(fl.Type.Results.List[0].Type)
+			pt, ok := rt.(*types.Pointer)
+			if !ok {
+				return true
+			}
+			if _, nm := core.NamedOf(pt.Elem()); nm != "CharSet" {
+				return true
+			}
+			n++
+			c.Visit(name)
+			deep := len(core.CallsIn(info, fl.Body, copyFn)) > 0
+			c.Check(deep, fmt.Sprintf("%s / prototype closure #%d returns a deep copy", name, n), fl.Pos(),
+				"the closure returns the address of a struct copy of the captured prototype: ranges and categories are still the prototype's slices, so canonicalize / sort running on one user's class (during Compile) writes into memory that matches on other goroutines are reading")
+			return true
+		})
+	}
+	if n == 0 {
+		c.Anchor("closures serving predefined classes")
+	}
+}
